@@ -319,10 +319,19 @@ def hyp_campaign(ctx: Ctx, part: str, strategy, fn, max_examples: int, shrink_s:
         except AssertionError:
             pass
         except hypothesis.errors.HypothesisException as ex:
+            if state['best'] is None and (ctx.budget_exhausted or ctx.out_of_budget()):
+                # the budget ran out inside a case with interactive draws: hypothesis sees the early end as flaky data
+                # generation.  The campaign is cut here (inconclusive for the rest), it is not an error of the harness
+                ctx.count(f'{part}/cut-by-budget')
+                break
             if state['best'] is None:
                 raise HarnessError(f'{part}: hypothesis error {type(ex).__name__}: {ex}') from ex
             ctx.note(f'{part}: hypothesis reported {type(ex).__name__} while shrinking')
         except BaseException as ex:  # hypothesis wraps some failures (e.g. ExceptionGroup)
+            if state['best'] is None and isinstance(ex, Exception) and (ctx.budget_exhausted or ctx.out_of_budget()) \
+                    and 'StopShrink' in ''.join(traceback.format_exception(ex)):
+                ctx.count(f'{part}/cut-by-budget')
+                break
             if state['best'] is None:
                 raise HarnessError(f'{part}: {type(ex).__name__}: {ex}\n' + ''.join(traceback.format_exception(ex))) from ex
         remaining -= max(state['n'], 1)
